@@ -40,7 +40,7 @@ func checkPrecAssignment(g *spec.Grammar, b *yx.Built) string {
 	lv, as := g.TokPrec()
 	G := b.Root.G
 	for i, t := range g.Tokens {
-		if t.Decl == "undeclared" {
+		if t.Decl == "undeclared" || t.IsEOFAlias() {
 			continue
 		}
 		sy := G.SymbolsMap[t.YName()]
